@@ -1,5 +1,6 @@
 import Hls.PartDur.LemmasFind
 import Hls.PartDur.LemmasTime
+import Hls.PartDur.LemmasRun
 /-!
 # C19 — LL-HLS parts are regular: non-final parts within 85–100 % of PART-TARGET
 
@@ -282,5 +283,48 @@ example : let s := timestampToDuration 1024 44100
     let a := findCompatiblePartDuration 200000000 [s]
     s = 23219954 ∧ a = 200000000 ∧ partSamples a 1024 44100 = 9 ∧
     partNs 441000 9 1024 44100 = 208979591 ∧ ceilMs 208979591 = 209000000 := by decide
+
+/-- Uniformity along a whole run of the segmenter model (`Hls.PartDur.write` mirrors
+`fmp4WriteSample` + `rotateParts` + `rotateSegments` for the leading track; `runFrom s b d flags`
+writes samples at DTS `b, b+d, b+2d, …` with the given random-access flags): with a constant sample
+duration `d`, whatever the key-frame placement, `SegmentMinDuration` and window size, EVERY non-final
+part — every part of the open segment and all but the last part of every finished segment still in
+the window — holds exactly `K = partSamples a d r` samples, i.e. equals `partNs t0 K d r` for the tick
+`t0 ≥ 0` at which it started. Together with `c19_uniform` / `c19_target_stable` / `c19_real_bounds`:
+all of them have the same duration up to 1 ns, the same millisecond ceiling, and lie in
+`[PartMinDuration, 2·max + s + 1 ns]`. Hypothesis: `PartMinDuration` on a grid `g` that divides 5 ms
+and is no finer than a tick (`r ≤ g`), e.g. whole milliseconds and `r ≤ 1 MHz`; without it the claim
+is FALSE for the code as it is (finding candidate F17, notes/muxarith.md). -/
+theorem c19_run_uniform (cfg : Cfg) (d g b : Int) (ra0 : Bool) (ras : List Bool)
+    (hr : 0 < cfg.rate) (hd : 0 < d) (hs : timestampToDuration d cfg.rate ≠ 0) (hm : 0 < cfg.partMin)
+    (hrg : cfg.rate ≤ g) (hg5 : g ∣ 5000000) (hgm : g ∣ cfg.partMin)
+    (hb : 0 ≤ b + durationToTimestamp 10000000000 cfg.rate) :
+    let a := findCompatiblePartDuration cfg.partMin [timestampToDuration d cfg.rate]
+    let K := partSamples a d cfg.rate
+    ∀ p ∈ nonFinal (runFrom { cfg := cfg } b d (ra0 :: ras)), ∃ t0, 0 ≤ t0 ∧ p = partNs t0 K d cfg.rate := by
+  intro a K
+  obtain ⟨_, j, he, _, _⟩ := c19_fuel_sufficient cfg.partMin [timestampToDuration d cfg.rate]
+  rw [findStep_val] at he
+  have hj : (0 : Int) ≤ j := Int.natCast_nonneg _
+  have hapos : 0 < a := by
+    show 0 < findCompatiblePartDuration cfg.partMin [timestampToDuration d cfg.rate]
+    rw [he]; omega
+  have hag : g ∣ a := by
+    show g ∣ findCompatiblePartDuration cfg.partMin [timestampToDuration d cfg.rate]
+    rw [he]
+    exact Int.dvd_add hgm (Dvd.dvd.mul_right hg5 _)
+  have hg : g ∣ 1000000000 := Int.dvd_trans hg5 (by decide)
+  have H : RunHyp cfg a d K g := ⟨hr, hd, hs, rfl, hapos, rfl, hrg, hg, hag⟩
+  exact run_uniform H b hb ra0 ras
+
+-- 30 fps at 90 kHz, PartMinDuration 200 ms, 14 samples from DTS 0 (key frame first): two full parts
+-- of 6 samples = 200 ms each
+set_option maxRecDepth 20000 in
+example :
+    let cfg : Cfg := { partMin := 200000000, segMin := 1000000000, segCount := 7, rate := 90000 }
+    (runFrom { cfg := cfg } 0 3000
+      [true, false, false, false, false, false, false, false, false, false, false, false, false, false]).openParts
+      = [200000000, 200000000] ∧
+    partSamples 200000000 3000 90000 = 6 ∧ (5000000 : Int) ∣ 200000000 := by decide
 
 end Hls.Props.C19
